@@ -83,4 +83,9 @@ def pooledMembers {ρ : Type} (a : Args ρ) : List ρ :=
 def buildStack {ρ : Type} (a : Args ρ) : Option (Stack ρ) :=
   wrapOuter (a.solutions.map .leaf ++ a.sources.map .leaf ++ wrapPooled (pooledMembers a))
 
+/-- `compile_main` merging the locations given on the command line with those read from requirements files:
+`OrderedDict` de-duplication, first occurrence keeps its place -/
+def mergeLocations (cmd file : List String) : List String :=
+  (cmd ++ file).foldl (fun acc x => if acc.contains x then acc else acc ++ [x]) []
+
 end RV.Repos
